@@ -131,16 +131,17 @@ pub fn run(r: &mut Report, ctx: &Ctx) {
                 }
                 // determinism of the search: repeat with 16 threads, counts must match
                 let results = results.into_inner().unwrap();
-                let recheck: Vec<u64> = if quick { vec![0, 6, 12, 18, 24] } else { (0..25).collect() };
+                let recheck: Vec<u64> = if s.acc.viol.is_some() { vec![] } else if quick { vec![0, 6, 12, 18, 24] } else { (0..25).collect() };
                 for idx in recheck {
                     let st = streams[(idx / 5) as usize];
                     fn go<V: Variant>(st: Stream, horizon: u64, pieces: &[u32], suffixes: &[u32], threads: usize) -> ExploreResult {
                         explore(GenModel::<V>::fresh(st, horizon, pieces.to_vec(), suffixes.to_vec()), threads)
                     }
                     let res: ExploreResult = with_variant!(idx % 5, go(st, horizon, pieces, suffixes, 16));
-                    let first = results.iter().find(|x| x.0 == idx).unwrap();
-                    if s.acc.viol.is_none() && (first.1 != res.unique_states) {
-                        s.caps.push(format!("MACHINERY: unique state count differs between 1 and 16 threads for instance {idx}: {} vs {}", first.1, res.unique_states));
+                    if let Some(first) = results.iter().find(|x| x.0 == idx) {
+                        if s.acc.viol.is_none() && res.violation.is_none() && (first.1 != res.unique_states) {
+                            s.caps.push(format!("MACHINERY: unique state count differs between 1 and 16 threads for instance {idx}: {} vs {}", first.1, res.unique_states));
+                        }
                     }
                 }
                 s.states = s.acc.evals;
